@@ -150,11 +150,68 @@ def structural_edit(wire, m):
     elif e == 'empty':
         parent[i]['kids'] = None
         parent[i]['v'] = b''
+    elif e == 'extend':
+        # append octets to a leaf value (e.g. behind a DER signature); enclosing lengths are fixed up
+        node = parent[i]
+        if node['kids'] is None:
+            node['v'] = node['v'] + bytes.fromhex(m.get('hex', '00'))
+        else:
+            node['kids'].append({'t': 0xf0, 'v': bytes.fromhex(m.get('hex', '00')), 'kids': None})
+    elif e == 'shorten':
+        node = parent[i]
+        if node['kids'] is None and node['v']:
+            node['v'] = node['v'][:-1]
     return tree_bytes(tree)
+
+
+def refix_params_digest(wire):
+    """the parameters digest is not covered by the signature: a tamperer recomputes it"""
+    try:
+        p = tlvref.parse_interest(wire)
+    except tlvref.TlvError:
+        return wire
+    if p.digest_portion is None or p.params_digest is None or len(p.params_digest) != 32:
+        return wire
+    idx = wire.find(p.params_digest)
+    if idx < 0:
+        return wire
+    import hashlib as _h
+    return wire[:idx] + _h.sha256(p.digest_portion).digest() + wire[idx + 32:]
+
+
+_INT_ORDER = [0x07, 0x21, 0x12, 0x1e, 0x0a, 0x0c, 0x22, 0x24, 0x2c, 0x2e]
+
+
+def _canonical_order(recv):
+    idx = [_INT_ORDER.index(x[0]) for x in recv.els if x[0] in _INT_ORDER]
+    return all(a < b for a, b in zip(idx, idx[1:]))
 
 
 def mutate(wire, m):
     if m is None:
+        return wire
+    if m.get('refix'):
+        m2 = dict(m)
+        m2.pop('refix')
+        return refix_params_digest(mutate(wire, m2))
+    if m['t'] == 'sigext':
+        for is_int in (False, True):
+            try:
+                p = tlvref.parse_interest(wire) if is_int else tlvref.parse_data(wire)
+            except tlvref.TlvError:
+                continue
+            if p.sig_value is not None:
+                typ = tlvref.T_INT_SIG_VALUE if is_int else tlvref.T_SIG_VALUE
+                old_el = tlvref.tlv(typ, p.sig_value)
+                new_el = tlvref.tlv(typ, p.sig_value + bytes.fromhex(m.get('hex', '00')))
+                idx = wire.rfind(old_el)
+                if idx < 0:
+                    return wire
+                inner = wire[:idx] + new_el + wire[idx + len(old_el):]
+                # fix the outer length
+                t0, n1 = tlvref.dec_var(inner, 0, strict=False)
+                _l, n2 = tlvref.dec_var(inner, n1, strict=False)
+                return tlvref.tlv(t0, inner[n1 + n2:])
         return wire
     if m['t'] == 'sigflip':
         # flip one byte inside the SignatureValue (nothing else changes)
@@ -481,8 +538,10 @@ class SigWorld(World):
             accepted = (d['out'] == 'accepted') if not is_int else bool(flow.get('_reached'))
             wrong_key = flow.get('verifier', 'match') != 'match' and flow['signer'] in ('hmac', 'rsa', 'ecdsa', 'ed25519')
             needs_validator = True
-            if is_int and self.pfe == 'v1' and flow['signer'] == 'none':
-                needs_validator = False        # legacy front-end: parameterised but unsigned -> digest check only
+            if is_int and self.pfe == 'v1' and (flow['signer'] == 'none' or (recv is not None and recv.sig_info is None)):
+                # legacy front-end: parameterised but unsigned (also: the signature was stripped in flight and the
+                # unsigned digest recomputed) -> digest check only, by design
+                needs_validator = False
             # (c) an unmodified packet is accepted by the matching verifier
             if not mutated:
                 if wrong_key:
@@ -501,6 +560,12 @@ class SigWorld(World):
                 if is_int and recv.app_param is None and recv.sig_info is None:
                     # as received it is a plain Interest (the mutation removed/absorbed the elements that demand
                     # checking): nothing for a digest check or a verifier to look at
+                    self.ambiguous += 1
+                    continue
+                if is_int and self.pfe == 'v1' and not _canonical_order(recv):
+                    # elements out of order: whether the decoder still sees an InterestSignatureInfo (and so whether the
+                    # legacy front-end, which checks only signed Interests, consults a verifier at all) is decoder
+                    # strictness; the outcome equals stripping the signature, which that front-end permits by design
                     self.ambiguous += 1
                     continue
                 same = recv.signed_portion == orig.signed_portion and recv.sig_value == orig.sig_value
@@ -529,12 +594,16 @@ class SigWorld(World):
         # (e) params-digest check == SHA-256 rule, evaluated on every Interest that crossed the link
         for e in ev:
             if e['k'] == 'link' and e['dir'] == 'c2p' and e['sent'] is not None:
-                self._digest_rule(e['sent'])
+                self._digest_rule(e['sent'], e['orig'])
 
-    def _digest_rule(self, wire):
+    def _digest_rule(self, wire, orig_wire):
         recv = parse_any(wire, True)
         if recv is None:
             return
+        orig = parse_any(orig_wire, True)
+        if orig is None or [x[0] for x in recv.els] != [x[0] for x in orig.els]:
+            return          # elements added, removed or re-ordered: what "from ApplicationParameters to the end" means for a
+            # packet that is not in canonical order is decoder strictness, not this property
         try:
             name, _p, ap, sig = enc.parse_interest(wire)
         except Exception:
@@ -574,8 +643,14 @@ def rand_mut(rng):
         return {'t': 'set', 'off': rng.randint(0, 300), 'v': rng.choice([0, 1, 0x17, 0x16, 0xfd, 0xff, rng.randint(0, 255)])}
     if x < 0.58:
         return {'t': 'len', 'path': rng.randint(0, 40), 'd': rng.choice([-1, 1])}
-    edit = rng.choice(['dup', 'del', 'swap', 'ins', 'ins', 'retype', 'empty'])
+    if x < 0.66:
+        return {'t': 'sigext', 'hex': rng.choice(['00', '0000', 'ff', '3000', 'deadbeef']), 'refix': True}
+    edit = rng.choice(['dup', 'del', 'swap', 'ins', 'ins', 'retype', 'empty', 'extend', 'shorten'])
     m = {'t': 'tlv', 'edit': edit, 'path': rng.randint(0, 40)}
+    if edit == 'extend':
+        m['hex'] = rng.choice(['00', '0000', 'ff', '3000'])
+    if rng.random() < 0.3:
+        m['refix'] = True
     if edit == 'ins':
         m['typ'] = rng.choice([0xf0, 0xf2, 0xf1, 0x80, 0xfd00, 0x0f])
         m['hex'] = rng.choice(['', '00', 'abcd'])
